@@ -475,14 +475,14 @@ pub fn parts(id: &str, tier: &str) -> Option<(Vec<Part>, Info)> {
                 }
             }
         }
-        if matches!(id, "C01" | "C02" | "C03" | "C04" | "C09" | "C10" | "C15" | "C18" | "C20") {
+        if matches!(id, "C01" | "C02" | "C03" | "C04" | "C09" | "C10" | "C15" | "C16" | "C18" | "C20") {
             // the same generated histories through the PrefixSet API
             if let Some(Part::Hist(first)) = v.first() {
                 let mut s = first.clone();
                 s.set_mode = true;
                 s.label = match id {
                     "C01" => "C01set", "C02" => "C02set", "C03" => "C03set", "C04" => "C04set",
-                    "C09" => "C09set", "C10" => "C10set", "C15" => "C15set", "C18" => "C18set", _ => "C20set",
+                    "C09" => "C09set", "C10" => "C10set", "C15" => "C15set", "C16" => "C16set", "C18" => "C18set", _ => "C20set",
                 };
                 s.cases = (s.cases / 2).max(20);
                 s.post = Post::None;
